@@ -10,6 +10,7 @@ import (
 
 	"github.com/massnetorg/mass-core/poc"
 	"github.com/massnetorg/mass-core/pocec"
+	"massnet.org/mass/verifhook"
 )
 
 // ---------------------------------------
@@ -334,6 +335,7 @@ func (prw *ProofRW) Write(wsp *WorkSpaceProof) error {
 	if prw.closed {
 		return ErrProofIOTimeout
 	}
+	verifhook.Point("proofrw.send", prw.ctx)
 	prw.ch <- wsp
 	return nil
 }
